@@ -125,7 +125,12 @@ int main(int argc, char** argv) {
     };
 
     bool inChild = false;
-    while (std::getline(in, line)) {
+    // The whole program is read into memory first: parent and forked children must not share a file offset
+    // (a child refilling its stream buffer would advance the parent's position in the file).
+    std::vector<std::string> all;
+    while (std::getline(in, line)) all.push_back(line);
+    for (size_t li = 0; li < all.size(); ++li) {
+        line = all[li];
         auto w = split(line);
         if (w.empty()) continue;
         forceRoundNearest();
@@ -142,12 +147,7 @@ int main(int argc, char** argv) {
                     std::cout << "caseskip " << (w.size() > 1 ? w[1] : "?") << " "
                               << (WIFSIGNALED(status) ? WTERMSIG(status) : -1) << "\n";
                 std::cout.flush();
-                while (true) {
-                    std::streampos pos = in.tellg();
-                    if (!std::getline(in, line)) break;
-                    auto ww = split(line);
-                    if (!ww.empty() && ww[0] == "case") { in.seekg(pos); break; }
-                }
+                while (li + 1 < all.size() && all[li + 1].compare(0, 5, "case ") != 0) ++li;
                 continue;
             }
             inChild = true;
